@@ -93,8 +93,9 @@ class _TrajectoryDataFilter:
     def setup_seen_zero(self, height: float, barrel_elevation: float, look_angle: float) -> None:
         if height >= 0:
             self.seen_zero |= TrajFlag.ZERO_UP
-        elif height < 0 and barrel_elevation < look_angle:
-            self.seen_zero |= TrajFlag.ZERO_DOWN
+        # (A muzzle below the sight line with the barrel pointing below it used to pre-set ZERO_DOWN as "seen", on the
+        # assumption that no crossing is possible.  A head wind on an inclined sight line can still lift the trajectory
+        # through the line; it was then flagged ZERO_UP, but its way back down through the line was never reported.)
         self.look_angle: float = look_angle
 
     def clear_current_flag(self):
